@@ -24,6 +24,48 @@ CHECKS = {
         note='Transactions are atomic steps (SQLite mode of Mistral); the '
              'reference model (mc/refmodel.py) is trusted as the reading of '
              'the language; corpus bounded as stated in evidence.'),
+    'C04': dict(
+        level='model_checking', design='3/C04',
+        technique='explicit-state model checking of the implementation: '
+                  'exhaustive DFS over interleavings of engine atomic steps; '
+                  'transition oracle on consecutive DB images + reference '
+                  'model',
+        text='All fork/join shapes of the corpus (join all/one/N, nested, '
+             'error/complete/guarded routes, impossible routes) and all '
+             'requires-DAGs on <= 3 tasks (4 thorough) x every target are '
+             'run under every interleaving (bounded by 2 deviations for the '
+             'larger shapes in quick); at every transition a join that '
+             'starts must have its required inbound completions routed to '
+             'it, exist once and start once; reverse tasks are created only '
+             'after their requirements succeeded, each once, only in the '
+             'closure of the target.',
+        note='Atomic transactions (named locks not exercised); DAG programs '
+             'with one instance per inbound task.'),
+    'C05': dict(
+        level='model_checking', design='3/C05',
+        technique='explicit-state model checking of the implementation: '
+                  'DFS over interleavings, data-flow reference model (latest '
+                  'causal publisher per leaf), context immutability monitor',
+        text='Fork/join data-flow programs (publish / publish-on-error on '
+             'either branch, scalar and 3-level nested values, YAQL and '
+             'Jinja) are run under all interleavings; every task\'s stored '
+             'inbound context, published variables and the output must equal '
+             'the reference semantics; finished tasks\' stored contexts never '
+             'change; no evaluation mutates its context.',
+        note='Default configuration (versioning on, strategy replace); row '
+             'order at the merge varied by swapping branch roles.'),
+    'C19': dict(
+        level='exploration', design='3/C19', engine='input-mc',
+        technique='bounded exhaustive input enumeration against an '
+                  'independent reference normaliser (URL catalogue x '
+                  'resolver answers x configurations), no sampling',
+        text='The complete product of schemes x userinfo x host encodings x '
+             'ports x paths x scripted resolver answers x configurations is '
+             'pushed through validate_url, HTTPAction.run and '
+             'WebhookPublisher.publish with the HTTP client replaced by a '
+             'recorder and compared with an independent normaliser.',
+        note='Catalogue bounds in evidence; DNS rebinding and redirects out '
+             'of scope.'),
     'C13': dict(
         level='model_checking', design='3/C13', engine='sched-mc',
         technique='explicit-state model checking of the real scheduler '
@@ -83,6 +125,10 @@ def main():
              'serves_properties': ['C13'],
              'kind_free_text': 'the engine explorer driving the real '
                                'DefaultScheduler/LegacyScheduler loops'},
+            {'name': 'input-mc', 'path': 'checks/c19.py',
+             'serves_properties': ['C19'],
+             'kind_free_text': 'exhaustive enumeration of a finite input '
+                               'catalogue against a reference model'},
             {'name': 'engine-explorer', 'path': 'mc/explore.py',
              'serves_properties': [p for p in props if p in CHECKS
                                    and CHECKS[p].get('engine') is None],
